@@ -99,6 +99,82 @@ func runAudit(dir string) (*auditResult, error) {
 		pos := fset.Position(p)
 		return fmt.Sprintf("%s:%d", filepath.Base(pos.Filename), pos.Line)
 	}
+	// parameters of reference type (map, slice, pointer) that receive a package-level variable (or
+	// another tainted parameter) at some call site alias it: writes through them are global writes
+	tainted := map[types.Object]string{}
+	funcDecls := map[types.Object]*ast.FuncDecl{}
+	for _, f := range files {
+		for _, d := range f.Decls {
+			if fd, ok := d.(*ast.FuncDecl); ok {
+				if o := info.Defs[fd.Name]; o != nil {
+					funcDecls[o] = fd
+				}
+			}
+		}
+	}
+	isRefType := func(t types.Type) bool {
+		switch t.Underlying().(type) {
+		case *types.Map, *types.Slice, *types.Pointer:
+			return true
+		}
+		return false
+	}
+	for changed := true; changed; {
+		changed = false
+		for _, f := range files {
+			ast.Inspect(f, func(n ast.Node) bool {
+				ce, ok := n.(*ast.CallExpr)
+				if !ok {
+					return true
+				}
+				var callee types.Object
+				switch fn := ce.Fun.(type) {
+				case *ast.Ident:
+					callee = info.Uses[fn]
+				case *ast.SelectorExpr:
+					callee = info.Uses[fn.Sel]
+				}
+				fd := funcDecls[callee]
+				if fd == nil || fd.Type.Params == nil {
+					return true
+				}
+				var params []*ast.Ident
+				for _, fl := range fd.Type.Params.List {
+					params = append(params, fl.Names...)
+				}
+				for i, a := range ce.Args {
+					if i >= len(params) {
+						break
+					}
+					if ue, ok := a.(*ast.UnaryExpr); ok && ue.Op == token.AND {
+						a = ue.X
+					}
+					o := root(a)
+					if o == nil {
+						continue
+					}
+					src := ""
+					if pkgVars[o] {
+						src = o.Name()
+					} else if t, ok := tainted[o]; ok {
+						src = t
+					}
+					if src == "" {
+						continue
+					}
+					po := info.Defs[params[i]]
+					if po == nil || !isRefType(po.Type()) {
+						continue
+					}
+					if _, done := tainted[po]; !done {
+						tainted[po] = src
+						changed = true
+					}
+				}
+				return true
+			})
+		}
+	}
 	for _, f := range files {
 		for _, im := range f.Imports {
 			p, _ := strconv.Unquote(im.Path.Value)
@@ -114,8 +190,18 @@ func runAudit(dir string) (*auditResult, error) {
 			}
 			fn := fd.Name.Name
 			note := func(kind string, e ast.Expr) {
-				if o := root(e); o != nil && pkgVars[o] {
+				o := root(e)
+				if o == nil {
+					return
+				}
+				if pkgVars[o] {
 					res.GlobalWrites = append(res.GlobalWrites, fmt.Sprintf("%s %s in %s at %s", kind, o.Name(), fn, rel(e.Pos())))
+				} else if src, ok := tainted[o]; ok {
+					// plain re-assignment of the parameter itself does not touch the global
+					if id, isIdent := e.(*ast.Ident); isIdent && (kind == "assign" || kind == "address-of" || kind == "range-assign") && info.Uses[id] == o {
+						return
+					}
+					res.GlobalWrites = append(res.GlobalWrites, fmt.Sprintf("%s through parameter %s (aliases %s) in %s at %s", kind, o.Name(), src, fn, rel(e.Pos())))
 				}
 			}
 			ast.Inspect(fd.Body, func(n ast.Node) bool {
